@@ -50,15 +50,15 @@ def compatible (nprocs : List Nat) (o1 o2 : List Nat) : Bool := (diffAxes nprocs
 def swapAxes (nprocs : List Nat) (oS oD : List Nat) : List Nat :=
   (diffAxes nprocs oS oD).flatMap (fun i => [i, oS.idxOf (oD.getD i 0), oD.idxOf (oS.getD i 0)])
 
-/-- direct connections in the order the constructor appends them (:436-441) -/
+/-- direct connections as the constructors build them (:436-441, :1044-1054): the pair loop
+    `for n', l1 in enumerate(L): for i, l2 in enumerate(L[:n']): if compat(l1, l2): conn[i].append(n'); conn[n'].append(i)`
+    appends to `conn[a]` first every compatible `i < a` (when `n' = a`, ascending) and then every compatible `n' > a`
+    (ascending): `conn[a]` is the ascending list of all partners.  `compat hi lo` is always asked with `hi > lo`. -/
+def connectionsOf (n : Nat) (compat : Nat → Nat → Bool) : List (List Nat) :=
+  (List.range n).map (fun a => (List.range n).filter (fun b => decide (b ≠ a) && compat (max a b) (min a b)))
+
 def connections (h : Handler) : List (List Nat) :=
-  let n := h.nLayouts
-  (List.range n).map (fun a =>
-    -- pairs (n', i) with i < n' are visited for n' ascending, i ascending; `a` receives `n'` when a = i and `i` when a = n'
-    ((List.range n).flatMap (fun n' => (List.range n').filterMap (fun i =>
-      if compatible h.nprocs (h.orders.getD n' []) (h.orders.getD i []) then
-        (if a = i then some n' else if a = n' then some i else none)
-      else none))))
+  connectionsOf h.nLayouts (fun hi lo => compatible h.nprocs (h.orders.getD hi []) (h.orders.getD lo []))
 
 /-- `bufferSize` on the rank with coordinates `c` (:431-462) -/
 def bufferSize (h : Handler) (c : List Nat) : Nat :=
@@ -135,17 +135,26 @@ def dijkstra (names : List String) (conn : List (List Nat)) (order : List Nat) (
       let m := (conn.getD via []).foldl (relax names source via unvisited) m
       dijkstra names conn order source fuel unvisited m
 
+/-- initialisation of the maps where a direct connection is known (:257-279) -/
+def initRoutes (conn : List (List Nat)) (n : Nat) : RouteMap :=
+  (List.range n).foldl (fun m a => (conn.getD a []).foldl (fun m b => (m.setD a b 1).setR a b (m.r a b ++ [b])) m)
+    { dist := fun _ _ => n + 1, route := fun _ _ => [] }
+
+/-- `for source in DirectConnections.keys(): …` (:281-326) -/
+def relaxAll (names : List String) (conn : List (List Nat)) (order : List Nat) (n : Nat) (m : RouteMap) : RouteMap :=
+  (List.range n).foldl (fun m s => dijkstra names conn order s n ((List.range n).filter (· ≠ s)) m) m
+
+/-- `max(max(distanceMap.values(), …).values())` (:329) -/
+def maxDist (m : RouteMap) (n : Nat) : Nat :=
+  (List.range n).foldl (fun acc a => (List.range n).foldl (fun acc b => if a ≠ b ∧ m.d a b > acc then m.d a b else acc) acc) 0
+
 /-- `_makeConnectionMap`; `order` = iteration order of Python's set of names (tie-break oracle).
     Returns the map and the "all connected" flag. -/
 def routeMap (names : List String) (conn : List (List Nat)) (order : List Nat) : RouteMap × Bool :=
   let n := names.length
   if n = 1 then ({ dist := fun _ _ => 0, route := fun _ _ => [] }, true) else
-  let inf := n + 1
-  let m0 : RouteMap := { dist := fun _ _ => inf, route := fun _ _ => [] }
-  let m1 := (List.range n).foldl (fun m a => (conn.getD a []).foldl (fun m b => (m.setD a b 1).setR a b (m.r a b ++ [b])) m) m0
-  let m2 := (List.range n).foldl (fun m s => dijkstra names conn order s n ((List.range n).filter (· ≠ s)) m) m1
-  let mx := (List.range n).foldl (fun acc a => (List.range n).foldl (fun acc b => if a ≠ b ∧ m2.d a b > acc then m2.d a b else acc) acc) 0
-  (m2, mx ≠ inf)
+  let m2 := relaxAll names conn order n (initRoutes conn n)
+  (m2, maxDist m2 n ≠ n + 1)
 
 def routes (h : Handler) (order : List Nat) : RouteMap × Bool := routeMap h.names h.connections order
 
